@@ -32,7 +32,7 @@ ASSUMPTIONS = [
     "exact ties between event times are not generated",
 ]
 
-ENTRIES = ["like", "like", "coal", "bdsk", "dist", "prior"]
+ENTRIES = ["like", "like", "coal", "bdsk", "dist", "dist2", "prior"]
 
 
 @st.composite
@@ -95,6 +95,33 @@ def build_spec(c):
         dom = {"nx": "real", "loc": "real", "scale": "pos", "lx": "pos", "lloc": "real", "lscale": "pos", "gx": "pos", "gconc": "pos", "grate": "pos", "hrate": "pos",
                "dx": "simplex", "dconc": "pos"}
         return spec, dom, ["normal", "lognormal", "gamma", "hyper", "dirichlet", "joint", "joint2"]
+    if e == "dist2":
+        # the other callable densities the package ships, and Jacobian terms of transformed parameters
+        d = c["d"]
+        v = c["vals"]
+        real = [4 * x - 2 for x in v[:d]]
+        L = np.tril(np.array([[0.3 + v[(3 * i + j) % 12] for j in range(d)] for i in range(d)]))
+        spec = [
+            {"id": "bridge", "type": "BayesianBridge", "x": tt.P("bx", real), "scale": tt.P("bscale", [0.5 + v[4]]), "alpha": tt.P("balpha", [0.3 + v[5]])},
+            {"id": "bridge2", "type": "BayesianBridge", "x": tt.P("b2x", real), "scale": tt.P("b2scale", [0.5 + v[4]]), "local_scale": tt.P("b2local", [0.3 + x for x in v[1:d + 1]]), "slab": tt.P("b2slab", [1.0 + v[6]])},
+            {"id": "mixture", "type": "ScaleMixtureNormal", "x": tt.P("sx", real), "loc": 0.1, "global_scale": tt.P("sglobal", [0.5 + v[6]]), "local_scale": tt.P("slocal", [0.3 + x for x in v[2:d + 2]])},
+            {"id": "mvn", "type": "MultivariateNormal", "x": tt.P("mx", real), "parameters": {"loc": tt.P("mloc", [x - 0.5 for x in v[3:d + 3]]), "scale_tril": tt.P("mtril", L.tolist())}},
+            {"id": "gmrf", "type": "GMRF", "x": tt.P("gfield", real), "precision": tt.P("gprec", [0.5 + v[7]])},
+            {"id": "gmrfi", "type": "GMRFGammaIntegrated", "x": tt.P("gifield", real), "shape": 0.5 + v[8], "rate": 0.5 + v[9]},
+            {"id": "invgamma", "type": "Distribution", "distribution": "torchtree.distributions.inverse_gamma.InverseGamma", "x": tt.P("ix", [0.2 + 3 * x for x in v[:d]]),
+             "parameters": {"concentration": tt.P("iconc", [1.0 + v[8]]), "rate": tt.P("irate", [0.5 + v[9]])}},
+            {"id": "oneonx", "type": "Distribution", "distribution": "torchtree.distributions.one_on_x.OneOnX", "x": tt.P("ox", [0.2 + 3 * x for x in v[1:d + 1]])},
+            {"id": "texp", "type": "TransformedParameter", "transform": "torch.distributions.ExpTransform", "x": tt.P("texp.u", real)},
+            {"id": "tsig", "type": "TransformedParameter", "transform": "torch.distributions.SigmoidTransform", "x": tt.P("tsig.u", real)},
+            {"id": "tstick", "type": "TransformedParameter", "transform": "torch.distributions.StickBreakingTransform", "x": tt.P("tstick.u", real)},
+            {"id": "tcum", "type": "TransformedParameter", "transform": "CumSumExpTransform", "x": tt.P("tcum.u", real)},
+            {"id": "prior.texp", "type": "Distribution", "distribution": "torch.distributions.Gamma", "x": "texp", "parameters": {"concentration": tt.P("pconc", [1.0 + v[10]]), "rate": tt.P("prate", [0.5 + v[11]])}},
+            {"id": "joint", "type": "JointDistributionModel", "distributions": ["bridge", "mixture", "mvn", "gmrf", "prior.texp", "texp", "tsig"]},
+        ]
+        dom = {"bx": "real", "bscale": "pos", "balpha": "pos", "b2x": "real", "b2scale": "pos", "b2local": "pos", "b2slab": "pos", "sx": "real", "sglobal": "pos", "slocal": "pos",
+               "mx": "real", "mloc": "real", "gfield": "real", "gprec": "pos", "gifield": "real", "ix": "pos", "iconc": "pos", "irate": "pos", "ox": "pos",
+               "texp.u": "real", "tsig.u": "real", "tstick.u": "real", "tcum.u": "real", "pconc": "pos", "prate": "pos"}
+        return spec, dom, ["bridge", "bridge2", "mixture", "mvn", "gmrf", "gmrfi", "invgamma", "oneonx", "texp", "tsig", "tstick", "tcum", "prior.texp", "joint"]
     like = c["like"]
     spec = phylo.like_spec(like)
     n = phylo.case_topo(like).n
@@ -254,8 +281,8 @@ def run_subset(c, spec, dom, targets, batched):
 
 def classes(c):
     e = c["entry"]
-    if e == "dist":
-        return "dist"
+    if e in ("dist", "dist2"):
+        return e
     like = c["like"]
     if e == "like":
         return "like:%s:%s:%s:%s" % (like["model"]["name"], like["site"]["kind"], like["tree"]["kind"], like["tree"].get("clock", {}).get("kind", "none"))
